@@ -15,7 +15,7 @@ RULE = ('generated mem-mode module (accessor function per load/store flavour x s
         'or a failing grow; distinct by (module, history). A second generator (c05_bigmem) uses a memory of just over 2 GiB so '
         'that effective addresses with the sign bit set, base + static offset crossing 2^31 and data segments at such offsets are in '
         'bounds (sparse model memory; plain builds only). A third (c05_hostlimit) lowers the address-space limit of the driver process: grows of gigabytes then fail with -1 and must change nothing (size, contents, the old size reported next). NOT decided: the no-32-bit-wrap clause of the effective address '
-        '(unobservable in bounds, DESIGN section 8).')
+        '(unobservable in bounds, DESIGN section 8). Segment contents include bytes that mean something inside C literals (trigraphs, quotes, backslashes, escapes followed by digits) and segments of boundary sizes (2^k, 32767, 65535 and multiples); one compile cell is strict -std=c89.')
 ASSUME = ['reference interpreter calibrated against the spec-suite expectations (memory_copy/fill/init/grow suites included)',
           'under an address-space limit of N pages an allocation of 2N pages fails and grows of a few pages succeed',
           'grows that the specification allows to fail for lack of memory are only generated up to 64 pages total',
